@@ -85,7 +85,7 @@ def rule_comment_layout(run, prog, rid="R-3.7"):
 
 def rule_literal_layout(run, prog, rid="R-17.7"):
     run.rule(rid, "literal layout: parse_string_literal / parse_char_literal, interpreted on every literal body over {tab, letter, "
-             "blank} of length <= 3 opened at columns 1..5, return the raw text unchanged and leave the cursor at the column the "
+             "blank} of length <= 3 and over those and {octal, hexadecimal, simple escape} of length <= 2, opened at columns 1..4, return the raw text unchanged and leave the cursor at the column the "
              "line's 4-column tab stops give (a raw tab inside a literal is as wide as anywhere else on the line, so text of the "
              "same displayed width keeps every later column)", floor=2)
     for name, q in (("parse_string_literal", '"'), ("parse_char_literal", "'")):
@@ -93,9 +93,10 @@ def rule_literal_layout(run, prog, rid="R-17.7"):
         run.require(fn is not None, f"anchor vanished: Lexer.{name}")
         bad, n = None, 0
         try:
-            for prefix in range(0, 5):
+            units = ["\t", "a", " ", "\\7", "\\12", "\\x4", "\\n"]     # ... and escape sequences in front of a raw tab
+            for prefix in range(0, 4):
                 for k in range(0, 4):
-                    for body in itertools.product("\ta ", repeat=k):
+                    for body in itertools.product(units[:3] if k == 3 else units, repeat=k):
                         raw = q + "".join(body) + q
                         n += 1
                         sim = LexerSim(prog, " " * prefix + raw + ";\n")
